@@ -3,6 +3,7 @@
 package specgen
 
 import (
+	gengotypes "github.com/octohelm/gengo/pkg/types"
 	"go/ast"
 	"encoding/json"
 	"errors"
@@ -209,6 +210,12 @@ func Build(specs []GenSpec) []gengo.Generator {
 				if idx == bh.At {
 					return errors.New("skip") // same text as ErrSkip, but a different error: must not be swallowed
 				}
+			case "error-early":
+				// fails BEFORE rendering anything (with Defers 0 and At 0: nothing rendered, nothing deferred so far)
+				if idx == bh.At {
+					return fmt.Errorf("type %s: %w", name, ErrInjected)
+				}
+				render(c, bh, name)
 			case "error":
 				render(c, bh, name)
 				if idx == bh.At {
@@ -499,7 +506,44 @@ func analyze(c gengo.Context, gen string) {
 				snippet.Arg("k", snippet.Block(fmt.Sprint(k))), snippet.Arg("r", snippet.Block(strings.ReplaceAll(results.String(), "\n", " "))))
 		}
 	}
+	// method sets: for the package's own types the value-receiver subset is asked first, then the full set; for the
+	// types of imported packages the other way round - an answer must not depend on what was asked before, by whom
+	methodsOf := func(label string, q gengotypes.Package, valueFirst bool) {
+		var names []string
+		for n, t := range q.Types() {
+			if own(t.Pos()) {
+				names = append(names, n)
+			}
+		}
+		sort.Strings(names)
+		for _, n := range names {
+			named, ok := q.Types()[n].Type().(*types.Named)
+			if !ok || named.NumMethods() == 0 {
+				continue
+			}
+			list := func(ptr bool) string {
+				var ms []string
+				for _, m := range q.MethodsOf(named, ptr) {
+					if own(m.Pos()) {
+						ms = append(ms, m.Name())
+					}
+				}
+				sort.Strings(ms)
+				return strings.Join(ms, ",")
+			}
+			var all, val string
+			if valueFirst {
+				val = list(false)
+				all = list(true)
+			} else {
+				all = list(true)
+				val = list(false)
+			}
+			c.RenderT("// @g: methods of @l@t: all [@a] value [@v]\n", snippet.Arg("g", snippet.Block(gen)), snippet.Arg("l", snippet.Block(label)), snippet.Arg("t", snippet.Block(n)), snippet.Arg("a", snippet.Block(all)), snippet.Arg("v", snippet.Block(val)))
+		}
+	}
 	emit("", pkg)
+	methodsOf("", pkg, true)
 	var ips []string
 	for ip := range pkg.Imports() {
 		if pkg.Module() != nil && strings.HasPrefix(ip, pkg.Module().Path+"/") {
@@ -510,6 +554,7 @@ func analyze(c gengo.Context, gen string) {
 	for _, ip := range ips {
 		if q := pkg.Imports()[ip]; q != nil {
 			emit(ip+".", q)
+			methodsOf(ip+".", q, false)
 		}
 	}
 	c.RenderT("\nvar _ = \"analyzed by @g\"\n\n", snippet.Arg("g", snippet.Block(gen)))
